@@ -33,7 +33,12 @@ def run_impl(case):
     if case.get("arg_dl") is not None:
         kw["default_language"] = case["arg_dl"]
     try:
-        r = convert(xlsform=copy.deepcopy(L.wb_of_case(case)), **kw)
+        if case.get("_xlsx") is not None:
+            import io
+
+            r = convert(xlsform=io.BytesIO(L.xlsx_of_case(case, case["_xlsx"])), file_type=".xlsx", form_name="data", **kw)
+        else:
+            r = convert(xlsform=copy.deepcopy(L.wb_of_case(case)), **kw)
     except PyXFormError as e:
         return {"class": "pyxform", "msg": str(e)}
     except Exception as e:  # noqa: BLE001
@@ -182,7 +187,8 @@ def one_case(ctx, case, tag=""):
     ctx.count(f"{tag}impl:{r['class']}")
     m = ctx.driver.call("c08.model", **L.driver_case(case))
     ctx.count(f"model:{m['outcome']}")
-    headers_corr(ctx, case)
+    if case.get("_xlsx") is None:
+        headers_corr(ctx, case)
     nontrivial = False
     expected = {"ok": "ok", "pyxform": "rejected", "internal": "crash"}[r["class"]]
     in_fragment = m["outcome"] != "unsupported"
@@ -209,6 +215,12 @@ def one_case(ctx, case, tag=""):
     return r
 
 
+def maybe_xlsx(ctx, case, p):
+    """the same content through the xlsx container with layout noise (spacer columns, trailing empty columns, blank rows)"""
+    if ctx.rng.random() < p:
+        one_case(ctx, {**case, "_xlsx": ctx.rng.randrange(1 << 30)}, tag="xlsx:")
+
+
 def explore(ctx, factor, bs):
     rng = ctx.rng
     for sheet in ("s", "c"):
@@ -217,6 +229,7 @@ def explore(ctx, factor, bs):
     ctx.notes["exhaustive"] = True
     for case in L.directed_cases():
         one_case(ctx, case, tag="dir:")
+        maybe_xlsx(ctx, case, 1.0)
     fam = list(L.search_family())
     rng.shuffle(fam)
     for form in fam[: ctx.pick(150, len(fam)) * (1 if factor == 1 else 2)]:
@@ -239,7 +252,9 @@ def explore(ctx, factor, bs):
     n = ctx.pick(1500, 40000) * factor
     for i in range(n):
         form = L.random_form(rng, big=not ctx.quick())
-        one_case(ctx, L.render(form), tag="rnd:")
+        case = L.render(form)
+        one_case(ctx, case, tag="rnd:")
+        maybe_xlsx(ctx, case, ctx.pick(0.12, 0.05))
 
 
 def is_f38(f: Failure) -> bool:
